@@ -42,23 +42,42 @@ def impl_side(c, ops_file, impl_file, max_report=6):
     c.cov["impl_side_failures"] = {" ".join(k): v for k, v in seen.items()}
 
 
+def profiles():
+    """VERIF_HUB_PROFILE = mock (default) | full | both.  mock: mocktikv's MVCC store (every recorded answer is compared with the
+    Lean model's); full: the real client runs against the Lean store itself (cgv-full: async commit, 1PC, CheckSecondaryLocks really
+    happen), only C01–C04 have generators tuned for it."""
+    p = os.environ.get("VERIF_HUB_PROFILE", "mock")
+    return {"mock": ["mock"], "full": ["full"], "both": ["mock", "full"]}.get(p, ["mock"])
+
+
 def run_hub(pid, a, rule, assumptions=()):
     c = Check(pid, a.tier, a.seed)
     c.cov["rule"] = rule
     c.assumptions = list(COMMON_ASSUMPTIONS) + list(assumptions)
     exe = c.build_driver(EXE)
     hbin = c.build_harness(HARNESS)
-    if exe and hbin:
-        r = c.run_harness(hbin, extra=["-prop", pid], timeout=3 * 3600)
-        if r:
-            ops, impl, st = r
-            c.cov["input_distribution"] = {k: v for k, v in st.items() if not k.startswith("api:")}
-            c.cov["api_calls"] = {k[4:]: v for k, v in st.items() if k.startswith("api:")}
-            c.cov["programs"] = st.get("scenarios", 0)
-            m = c.run_model(exe, ops)
-            if m:
-                c.diff_judge(ops, m)
-                impl_side(c, ops, impl)
+    for prof in profiles():
+        if not (exe and hbin):
+            break
+        extra = ["-prop", pid]
+        if prof == "full":
+            full = c.build_driver("cgv-full")
+            if not full:
+                break
+            extra += ["-profile", "full", "-full", full]
+            c.assumptions.append("profile full: the store is the Lean model MvccFull served by cgv-full (rules of DESIGN Appendix A are assumptions about TiKV)")
+        r = c.run_harness(hbin, extra=extra, tag=prof, timeout=3 * 3600)
+        if not r:
+            continue
+        ops, impl, st = r
+        key = "" if prof == "mock" else "_full"
+        c.cov["input_distribution" + key] = {k: v for k, v in st.items() if not k.startswith("api:")}
+        c.cov["api_calls" + key] = {k[4:]: v for k, v in st.items() if k.startswith("api:")}
+        c.cov["programs"] = c.cov.get("programs", 0) + st.get("scenarios", 0)
+        m = c.run_model(exe, ops, tag=prof)
+        if m:
+            c.diff_judge(ops, m)
+            impl_side(c, ops, impl)
     if os.path.exists(os.path.join(LEAN, "ClientGoVerif", "Props", pid + ".lean")):
         c.prove("ClientGoVerif.Props." + pid)
     return c.finish()
